@@ -20,8 +20,8 @@ import runner, gen, props  # noqa: E402
 ALLOWED_AXIOMS = {"propext", "Classical.choice", "Quot.sound"}
 TRUSTED_BASE = [
     "Lean 4.33 kernel; axioms of every property theorem ⊆ {propext, Classical.choice, Quot.sound} (audited by #print axioms on this run); no sorry/admit/native_decide/bv_decide/own axioms (textual scan on this run)",
-    "tools/translate.py: that the tables, layouts, emission orders and constants it extracts are the ones rustc compiles (every generated item is also exercised through the correspondence run)",
-    "hand-written model of the control logic (nom combinators, flowset dispatch, record loops, cache updates, chaining, error mapping, exporters, common view): MODELLED, tied to the code only by the correspondence runs of this check (differential testing, not a proof)",
+    "tools/translate.py (+ translate_ctl.py, translate_export.py): that the tables, layouts, emission orders, value-codec arms, the control skeleton (constants, comparison operators, dispatch-arm orders and cache updates, flags of lib.rs / v9.rs / ipfix.rs) and the statement lists of V9::to_be_bytes / IPFix::to_be_bytes it extracts are what rustc compiles (every generated item is also exercised through the correspondence run); Lemmas/G1Arms, G2Ctl, G3Export prove that the model the theorems are about IS the interpretation of these regenerated items",
+    "the rest of the hand-written model (nom combinators, V5/V7 count loop, V9 record / options-data loops, IPFIX field decoding, chaining, error mapping, common-view loops, JSON shapes): MODELLED, tied to the code only by the correspondence runs of this check (differential testing, not a proof)",
     "nom 7.1.3, nom-derive 0.10.1, serde/serde_json, byteorder, mac_address, std are modelled from their semantics",
     "harness nfh canonical dump and the driver's JSON reader; Python orchestration (generation, process control, counting)",
     "not modelled: stack frame sizes, allocator internals, rustc",
@@ -44,10 +44,10 @@ def scan_forbidden():
     return bad
 
 
-EXTRA_MODULES = {"C01": ["H1", "Ctl"], "C02": ["H1", "Ctl"], "C04": ["Ctl"], "C05": ["Ctl"], "C06": ["C06Refine", "H1", "Ctl"], "C07": ["C07b", "H1", "Ctl"],
-                 "C09": ["Ctl"], "C10": ["Ctl"], "C11": ["Ctl"], "C12": ["H1", "Ctl"], "C14": ["H1", "Ctl"], "C15": ["Ctl"],
+EXTRA_MODULES = {"C01": ["H1", "Ctl", "ExportGen"], "C02": ["H1", "Ctl"], "C04": ["Ctl"], "C05": ["Ctl"], "C06": ["C06Refine", "H1", "Ctl"], "C07": ["C07b", "H1", "Ctl"],
+                 "C09": ["Ctl", "ExportGen"], "C10": ["Ctl", "ExportGen"], "C11": ["Ctl"], "C12": ["H1", "Ctl"], "C14": ["H1", "Ctl"], "C15": ["Ctl"],
                  "C16": ["C16b", "H1"], "C17": ["C17b", "Ctl"]}
-SHARED_MODULES = {"H1", "Ctl"}                     # modules holding theorems of several properties: only the `Cnn_…` ones count for Cnn     # further theorem files that belong to a property
+SHARED_MODULES = {"H1", "Ctl", "ExportGen"}                     # modules holding theorems of several properties: only the `Cnn_…` ones count for Cnn     # further theorem files that belong to a property
 
 
 def prop_modules(prop_id):
@@ -62,7 +62,7 @@ def theorem_names(prop_id):
         txt = re.sub(r"/-.*?-/", "", txt, flags=re.S)
         found = re.findall(r"^theorem\s+([A-Za-z0-9_.']+)", txt, flags=re.M)
         if m in SHARED_MODULES:
-            found = [n for n in found if n.startswith(prop_id + "_") or n.startswith("Ctl_")]   # Ctl_…: the regenerated control skeleton is the modelled one (counts for every property that imports it)
+            found = [n for n in found if n.startswith(prop_id + "_") or n.startswith("Ctl_") or n.startswith("Export_")]   # Ctl_…: the regenerated control skeleton is the modelled one (counts for every property that imports it)
         names += found
     return names
 
@@ -103,7 +103,7 @@ def scenario_of(ops, line):
     return ops[s:e]
 
 
-def run_pipeline(binp, scens, workdir, tag, mutate_per=0, rng=None, nouf_bin=None):
+def run_pipeline(binp, scens, workdir, tag, mutate_per=0, rng=None, nouf_bin=None, op_timeout=60.0):
     """encode -> (mutate) -> harness -> merge -> driver.  Returns (ops, verdicts, crashes)"""
     raw = os.path.join(workdir, tag + ".raw.ops")
     enc = os.path.join(workdir, tag + ".enc.ops")
@@ -147,11 +147,11 @@ def run_pipeline(binp, scens, workdir, tag, mutate_per=0, rng=None, nouf_bin=Non
     out = os.path.join(workdir, tag + ".impl")
     merged = os.path.join(workdir, tag + ".merged")
     if nouf_bin:
-        answers2, _ = runner.run_harness(binp, opsf, out)
-        answers, crashes = runner.run_harness(nouf_bin, opsf, out + ".nouf")
+        answers2, _ = runner.run_harness(binp, opsf, out, op_timeout=op_timeout)
+        answers, crashes = runner.run_harness(nouf_bin, opsf, out + ".nouf", op_timeout=op_timeout)
         runner.merge(opsf, answers, merged, answers2)
     else:
-        answers, crashes = runner.run_harness(binp, opsf, out)
+        answers, crashes = runner.run_harness(binp, opsf, out, op_timeout=op_timeout)
         runner.merge(opsf, answers, merged)
     rc, err, verdicts = runner.driver_check(merged, os.path.join(workdir, tag + ".verdict"))
     if rc != 0:
@@ -373,7 +373,7 @@ def shrink_scenario(pid, cfg, binp, scen_ops, workdir, known, nouf_bin=None, bud
     fails on the real crate for an input outside the listed findings"""
     def fails(ops_try):
         try:
-            ops2, verdicts2, _ = run_pipeline(binp, [("shrink", ops_try)], workdir, "shrink", nouf_bin=nouf_bin)
+            ops2, verdicts2, _ = run_pipeline(binp, [("shrink", ops_try)], workdir, "shrink", nouf_bin=nouf_bin, op_timeout=12.0)   # a hanging candidate costs 12 s, not 60
         except Exception:
             return False
         return bool(analyse(pid, cfg, ops2, verdicts2, known)["oracle_fail_unlisted"])
